@@ -190,7 +190,7 @@ def classify(r, vr):
 def playback_values(crate, tdir, harness, flags=(), timeout=900):
     """Re-run one failing harness with concrete playback and return the ordered byte vectors."""
     cmd = ['cargo', 'kani', '--target-dir', tdir, '--harness', harness, '--exact',
-           '-Z', 'concrete-playback', '--concrete-playback=print'] + [f for f in flags]
+           '-Z', 'unstable-options', '-Z', 'concrete-playback', '--concrete-playback=print'] + [f for f in flags]
     rc, out, wall = run(cmd, cwd=crate, mem_kb=MEM_KB, timeout=timeout)
     tests = []
     for m in re.finditer(r'/// Check for `([^`]*)`: "(.*?)"\s*\n(?:\s*///[^\n]*\n|\s*\n)*#\[test\]\s*\nfn \w+\(\) \{\s*let concrete_vals: Vec<Vec<u8>> = vec!\[(.*?)\];', out, re.S):
